@@ -24,6 +24,7 @@ RULE = (
     ' Round 5: the simfile read from the directory itself (an .sm with decoy names written before the .ssc).'
     ' Round 6: named paths that go through a regular file; pack names with regex metacharacters.'
     ' Round 7: trees rebuilt at one path, sub-directories that are symbolic links.'
+    ' Round 8: named paths through a missing directory and back (native).'
 )
 ASSUMPTIONS = ["os.path.splitext defines 'name without last extension'", "MemoryFS and the native filesystem list what was created"]
 MONITORS = ["asset_lookup", "exists", "repeat_read", "pack_banner", "simfile_from_directory"]
